@@ -289,6 +289,19 @@ impl AttrStorageManager {
     /// The returned error can be used in conjunction with transaction control to avoid any
     /// modifications in case of failure at attribute level. The user can then choose, through its
     /// transaction control policy, to retry or abort as he wishes.
+    /// Forget every attribute value stored under `id` (all kinds, all orbits).
+    pub fn clear_slot(&self, trans: &mut Transaction, id: DartIdType) -> StmClosureResult<()> {
+        for map in &self.icells {
+            for storage in map.values() {
+                storage.clear_slot(trans, id)?;
+            }
+        }
+        for storage in self.others.values() {
+            storage.clear_slot(trans, id)?;
+        }
+        Ok(())
+    }
+
     pub fn split_attributes(
         &self,
         trans: &mut Transaction,
